@@ -108,7 +108,23 @@ def idx_to_py(form):
 @st.composite
 def _index_form(draw, avail, nbase, mask_dim_ok, prefer_slice=False):
     """An index over the available scoped values `avail` (sorted list of ints)."""
-    kind = draw(st.sampled_from(["int", "int", "list", "array", "range", "slice", "mask", "all", "missing"]))
+    kind = draw(st.sampled_from(["int", "int", "list", "array", "range", "slice", "mask", "all", "missing", "dupgap"]))
+    if kind == "dupgap":
+        # repeated entries around a gap, as many entries as the span is wide ([0, 2, 2], [3, 1, 1], [5, 7, 7, 9, 9]): a
+        # selection test that looks at min, max and the number of entries takes this for a contiguous block
+        lo_ = draw(st.sampled_from(avail))
+        his = [x for x in avail if x >= lo_ + 2]
+        if not his:
+            kind = "list"
+        else:
+            hi_ = draw(st.sampled_from(his))
+            inner = [x for x in avail if lo_ < x < hi_]
+            keep = draw(st.lists(st.sampled_from(inner), max_size=max(0, len(inner) - 1), unique=True)) if len(inner) > 1 else []
+            vals = [lo_, hi_] + keep
+            while len(vals) < hi_ - lo_ + 1:
+                vals.append(draw(st.sampled_from([lo_, hi_] + keep)))
+            vals = draw(st.permutations(vals))
+            return {draw(st.sampled_from(["list", "array"])): [int(x) for x in vals]}
     if prefer_slice and draw(st.booleans()):
         # a sub-view seen in global scope: slices and ranges count in *global* indices, which exceed the view's size
         kind = draw(st.sampled_from(["slice", "slice", "range"]))
